@@ -455,3 +455,64 @@ def c13_5b(run):
                 claim.append(z3.Or(olds[j][1] != target + j, z3.UGT(cum(j + 1), z3.ZeroExt(4, bal))))
             run.prove(f'promoted = longest run target, target+1, ... that is jointly affordable; kept = the rest {lab}', p.pc, z3.And(*claim))
     run.require_reached(*run.cur.reach)
+
+
+# ----------------------------------------------------------------------------------------------------------------- C13-6
+@obligation('C13', 'C13-6 builder_queue: every ready transaction enters the sort with priority (group, nonce - account\'s first ready nonce, arrival time); the result is the descending order of that key')
+def c13_6(run):
+    captured = {}
+
+    def h_sort(ctx):
+        v = M.shaped(ctx.ex, ctx.st, ctx.args[0], 'queue')
+        ctx.st.log.append(('sorted_by_key', tuple(v.attrs['items'])))
+        return [(None, ())]
+    ex = container_engine('PendingTransactionsForAccount')
+    ex.hooks.insert(0, (re.compile(r'sort_unstable_by_key(::<.*>)?$'), h_sort)) if hasattr(ex, 'hooks') else None
+    f = _impl_fn(ex, 'builder_queue', 'PendingTransactions')
+    run.bound(container='1..2 accounts with 1..2 ready transactions each', sort='sort_unstable_by_key is the standard library (ascending by the key closure); the total order of the key is decided in C13-1')
+    run.assume('map key == nonce of the stored transaction; the sort is modelled as ascending order of the captured keys (identity permutation: the captured list is taken to be that order)')
+    for shape in [(1,), (2,), (1, 1), (2, 1), (2, 2)]:
+        accts = []; pc = []; allt = []
+        for ai, cnt in enumerate(shape):
+            addr = z3.BitVec(f'acct{ai}', 160)
+            olds = [mk_ttx(ex, f'a{ai}t{j}') for j in range(cnt)]
+            for o in olds:
+                o[0].attrs['addr'] = addr
+                tx = ex.deref_val(None, o[0]) if False else None
+            pc += [z3.ULT(olds[j][1], olds[j + 1][1]) for j in range(cnt - 1)]
+            inner = B.struct(ex, 'PendingTransactionsForAccount', txs=M.new_map('BTreeMap<u32, TimemarkedTransaction>', [(n, t) for t, n, _, _ in olds]))
+            accts.append((addr, inner, olds)); allt += [(o, olds[0][1]) for o in olds]
+        pc += [accts[i][0] != accts[j][0] for i in range(len(accts)) for j in range(i + 1, len(accts))]
+        cont = B.struct(ex, 'PendingTransactions', txs=M.new_map('HashMap<[u8; 20], PendingTransactionsForAccount>', [(a, inner) for a, inner, _ in accts]), tx_ttl=z3.BitVec('ttl', 96))
+        st = ex.start(f, [B.cell(cont)])
+        st.pc += pc
+        for i, p in enumerate(run.explore(ex, st, allow_havoc=(r'^Arguments::|fmt::',))):
+            lab = f'[shape {shape}, path {i}]'
+            if p.kind != 'return':
+                run.prove(f'no panic {lab}', p.pc, z3.BoolVal(False), detail=p.info); continue
+            sorts = [e for e in p.log if e[0] == 'sorted_by_key']
+            if len(sorts) != 1:
+                run.prove(f'the queue is sorted exactly once {lab}', p.pc, z3.BoolVal(False)); continue
+            entries = [ex.deref_val(p, x) for x in sorts[0][1]]
+            out = [ex.deref_val(p, x) for x in ex.deref_val(p, p.result).attrs['items']]
+            def txid(arc):
+                a_ = ex.deref_val(p, arc); inner = ex.deref_val(p, a_.fields[('in', 0)]) if isinstance(a_, Obj) and a_.kind == 'arc' else a_
+                return B.fld(ex, p, inner, 'tx_id', 'TransactionId')
+            def qfield(e_, name):
+                # QueueEntry is local to builder_queue (not in the ADT table): fields in declaration order checked_tx, priority
+                keys = sorted(k_ for k_ in e_.fields if k_[0] is None)
+                byname = {k_: v_ for k_, v_ in e_.fields.items() if k_[0] == name or (len(k_) > 2 and k_[2] == name)}
+                if byname:
+                    return ex.deref_val(p, list(byname.values())[0])
+                return ex.deref_val(p, e_.fields[(None, 0 if name == 'checked_tx' else 1)])
+            claim = [z3.BoolVal(len(entries) == len(allt) and len(out) == len(entries))]
+            if len(entries) == len(allt):
+                for e_, ((t, n, c, tid), first) in zip(entries, allt):
+                    pr = qfield(e_, 'priority')
+                    claim += [txid(qfield(e_, 'checked_tx')) == tid, B.fld(ex, p, pr, 'nonce_diff', 'u32') == n - first,
+                              B.fld(ex, p, pr, 'time_first_seen', 'Instant') == B.fld(ex, p, t, 'time_first_seen', 'Instant')]
+                for o_, e_ in zip(out, reversed(entries)):
+                    claim.append(txid(o_) == txid(qfield(e_, 'checked_tx')))
+            run.sample({'shape': list(shape), 'path': i, 'entries': len(entries), 'out': len(out)})
+            run.prove(f'every ready transaction is queued once with nonce difference relative to its account\'s first ready nonce and its own arrival time; output = reverse of the ascending sort {lab}', p.pc, z3.And(*claim))
+    run.require_reached(*run.cur.reach)
